@@ -128,7 +128,7 @@ def make_jump(exact):
                   z3.ForAll([m], z3.Implies(z3.And(m >= 0, m < to_num(L)), within_fn(lambda j: Xa.get((m, j))))))
         vc.canary('canary: some path returns', z3.BoolVal(False))
     run.__doc__ = "_jump (%s): the recorded path is exactly the chain of accepted steps from (x0, t0); rejected or impossible steps record nothing" % ('exact' if exact else 'tau-leap with first-reaction fall-back')
-    contract(cid, ['C04', 'C10', 'C11', 'C15', 'C16'], SIM + 'SimulateOde._jump', max_paths=3000,
+    contract(cid, ['C04', 'C10', 'C11', 'C15', 'C16'] + (['C05'] if exact else []), SIM + 'SimulateOde._jump', max_paths=3000,
              replay=(lambda clause, m: __import__('contracts.native_steps', fromlist=['x']).jump_search(exact)))(run)
 
 
@@ -195,7 +195,7 @@ def make_solve_raw(exact, full_output):
                       z3.And(z3.ForAll([a, b], Jr.get((a, b)) == RunJ(r, a, b)), z3.ForAll([a], Tr.get((a,)) == RunT(r, a))))
         vc.canary('canary: reachable', z3.BoolVal(False))
     run.__doc__ = "solve_stochast with a scalar horizon returns, per run, exactly what the r-th serial _jump(T, exact=%s) returned" % exact
-    contract(cid, ['C04', 'C10', 'C16', 'C11'], SIM + 'SimulateOde.solve_stochast')(run)
+    contract(cid, ['C04', 'C10', 'C16', 'C11'] + (['C05'] if exact else []), SIM + 'SimulateOde.solve_stochast')(run)
 
 
 from pyvc.values import Unsupported  # noqa: E402
